@@ -16,7 +16,7 @@ pub static DEF: PropDef = PropDef {
     id: "C07",
     level: "exploration",
     engine: "meta-cas",
-    rule: "one run = one generated history of 6..25 register (incl. re-registration of a path with another interval) / delete / complete_compaction operations applied identically to a real LocalMetadataClient and a real ObjectStoreMetadataClient, with 3..6 range lookups after every operation on both backends and on a second object-store client whose 60 s catalog cache is aged in virtual time; intervals and ranges drawn from hour boundaries +-1 ns, negative timestamps, zero-length and multi-day spans, inverted ranges; half of the runs inject store request failures into mutations (failed mutation must leave lookups exact); distinct = distinct hash of the operation/lookup history; non-trivial = completed AND the history contained a multi-bucket chunk, a boundary-exact touch or a re-registration",
+    rule: "one run = one generated history of 6..25 register (incl. re-registration of a path with another interval) / delete / complete_compaction operations applied identically to a real LocalMetadataClient and a real ObjectStoreMetadataClient, with 3..6 range lookups after every operation on both backends and on a second object-store client whose 60 s catalog cache is aged in virtual time; intervals and ranges drawn from hour boundaries +-1 ns, negative timestamps, zero-length, multi-day and (rarely) multi-year spans, inverted ranges; half of the runs inject store request failures into mutations (failed mutation must leave lookups exact); distinct = distinct hash of the operation/lookup history; non-trivial = completed AND the history contained a multi-bucket chunk, a boundary-exact touch or a re-registration",
     quick_runs: 15000,
     thorough_runs: 200_000,
     run_cap_ms: 20_000,
@@ -29,7 +29,7 @@ pub static DEF: PropDef = PropDef {
 
 fn pick_ts() -> i64 {
     // around hour boundaries, negative, zero
-    let base_h = [-3i64, -1, 0, 1, 2, 5, 26, 472_222][sim::w(8) as usize];
+    let base_h = [-3i64, -1, 0, 1, 2, 5, 26, 472_222, 9_590][sim::w(9) as usize];
     let off = [0i64, 1, -1, HOUR / 2, HOUR - 1, 17][sim::w(6) as usize];
     base_h * HOUR + off
 }
@@ -65,6 +65,13 @@ fn scen(_spec: RunSpec) -> ScenFut {
                 0..=5 => {
                     let a = pick_ts();
                     let span = [0i64, 1, HOUR - 1, HOUR, 2 * HOUR + 5, 30 * HOUR][sim::w(6) as usize];
+                    // now and then a chunk of more than a year (one sample with a zero timestamp among current ones makes such a chunk)
+                    let span = if sim::w(150) == 149 {
+                        sim::probe("chunk-spans-more-than-a-year");
+                        400 * 24 * HOUR
+                    } else {
+                        span
+                    };
                     let (min, max) = (a, a + span);
                     if model.contains_key(&p) {
                         sim::probe("re-registration");
